@@ -3,13 +3,28 @@ from tools.vlib import hx
 
 ID = "C09"
 LEVEL = "proof"
-DRIVER = {"srcs": ["harness/c09_driver.cc"], "sdk": False}
+DRIVER = {"srcs": ["harness/c09_driver.cc", "harness/c09_purity.cc"], "sdk": False}
+
+
+def build_driver():
+    """the ASan/UBSan case driver + the ThreadSanitizer purity probe (clang++), behind one dispatcher that behaves
+    like a single case driver: PURITY lines go to the probe, everything else to the case driver"""
+    from tools import vlib, purity
+    main = vlib.build_driver("c09_driver", ["harness/c09_driver.cc"], sdk=False)
+    probe = purity.build_probe("c09_purity", ["harness/c09_purity.cc"])
+    return purity.make_dispatcher("c09_dispatch", main, probe)
+
+
 TRIVIAL_TAGS = {"ext_empty", "inj_invalid", "rt_invalid"}
 ASSUMPTIONS = [
     "SpanContext objects handed to Inject are built by the driver from (trace id, span id, flags byte, TraceState::FromHeader(h)); the model builds the same with its from_header (tied by C14); the trace-state leg of the round trip uses C14's header_roundtrip/from_header_wf (coq/C14/Proofs.v)",
     "theorems about contexts assume 16-byte trace ids and 8-byte span ids (the C++ types are fixed-size arrays)",
     "'never crashes or reads out of bounds' is evidenced by the ASan/UBSan build on the generated malformed stream (header values live in exact-size heap blocks without a terminating NUL), not by a theorem",
     "std::regex / isspace behave as modelled in the C locale",
+    "the model treats TraceState / SpanContext / Context / propagator operations as PURE functions of immutable values; this is not a theorem "
+    "about the C++: it is probed at run time on every check by harness/c09_purity.cc (clang ThreadSanitizer build, 4 real threads released by a "
+    "barrier calling ToHeader/Get/Set/Delete/GetAllEntries, SpanContext accessors, Inject of a shared Context into per-thread carriers, Extract "
+    "from a shared carrier, on FRESH shared objects with 0/1/8/32 trace-state members every round; clauses purity:data_race, purity:result_differs)",
 ]
 TRUSTED = ["model coq/C09/Model.v + coq/C14/Model.v is hand-written; tied by this correspondence run"]
 
@@ -76,9 +91,15 @@ def ext(tp, ts):
 MUT = [b"-", b"g", b"G", b" ", b"\x00", b"\x80", b"\xff", b"0", b"f", b"F", b"/", b":", b"@", b"`", b"\t"]
 
 
+def purity_cases(tier):
+    # PURITY <trace-state members> <threads> <rounds (fresh shared objects each)> <iterations of every operation per round>
+    k = 1 if tier == "quick" else 5
+    return ["PURITY 0 4 %d 4" % (150 * k), "PURITY 1 4 %d 4" % (150 * k), "PURITY 8 4 %d 3" % (120 * k), "PURITY 32 3 %d 2" % (60 * k)]
+
+
 def gen(rng, tier):
     n = 1 if tier == "quick" else 12
-    cases = []
+    cases = purity_cases(tier)
     # inject / round trip: every flags byte exhaustively, ids incl. invalid ones, trace states
     for f in range(256):
         tid, sid = rnd_id(rng, 16), rnd_id(rng, 8)
@@ -155,6 +176,7 @@ LEVEL_TEXT = ("Theorems in coq/Properties_C09.v about the Gallina model of HttpT
               "trace_flags.h/trace_id.h/span_id.h, inject/extract round trip for every context incl. the trace state, extraction = the positional W3C "
               "grammar for every byte string, invalid => caller's context, never injected/installed, model_meets_spec); the model is tied to the C++ on "
               "every run by running the extracted model and the rebuilt ASan/UBSan driver on the same generated headers and by running the extracted "
-              "SPEC on the implementation's outputs.")
+              "SPEC on the implementation's outputs; the model's purity assumption (operations are functions of immutable values) is probed on every "
+              "run by a ThreadSanitizer build in which real threads share the objects (a run-time probe, not a theorem).")
 LEVEL_NOTE = ("Trusted: Coq kernel, extraction, ocaml/driver.ml, the C++ driver, the generator, tools/extract_consts.py; the model is hand-written "
               "(tied by correspondence, not verified against C++ semantics); memory safety is evidenced by sanitizers, not proved.")
